@@ -8,8 +8,8 @@ LEVEL = "model_checking"
 MANIFEST = dict(
     level="model_checking",
     text="TLC checks Deterministic (validator of the included list reaches the miner's state; a miner offered only the included list seals the same block) "
-         "for every candidate list of <=2 (thorough: <=3) of 18 transaction kinds (valid, order-dependent, unpayable, wrongly signed, failing after gas was bought, votes, contract creation/call, "
-         "reverting creation included as failed tx, boxes incl. one that hits the block gas limit and one with an invalid later sub-transaction, a creation whose CALL gas depends on the emptiness of an account only dropped boxes paid, a ModifySigners that revokes the sender's own key, a transfer whose gas limit is nearly the whole block, a box touching 12 fresh accounts) over 2 blocks; every transition (thorough) or a seeded sample (quick) is executed for real: node A first tries every not yet offered transaction on a throwaway block and then mines with the real "
+         "for every candidate list of <=2 over 2 blocks and every list of 3 on the first block (plus simulated lists of 3 over 2 blocks) of 18 transaction kinds (valid, order-dependent, unpayable, wrongly signed, failing after gas was bought, votes, contract creation/call, "
+         "reverting creation included as failed tx, boxes incl. one that hits the block gas limit and one with an invalid later sub-transaction, a creation whose CALL gas depends on the emptiness of an account only dropped boxes paid, a ModifySigners that revokes the sender's own key, a transfer whose gas limit is nearly the whole block, a box touching 12 fresh accounts); every transition (thorough) or a seeded sample (quick) is executed for real: node A first tries every not yet offered transaction on a throwaway block and then mines with the real "
          "assembler, node A2 mines from the included list only, nodes B and C (C first executes a different sibling block) validate through DPoVP.InsertBlock, B is restarted, "
          "re-fed the chain and validates again; TLC validates that all block hashes agree, every node accepts, and the dumps of every account field agree.",
     note="Go's per-iteration map order randomisation is exercised by the five independent executions of every block (same process, separate node objects and databases). "
